@@ -15,7 +15,8 @@ var CfgKeys = []string{"goos", "goarch", "pkg", "k9", "é", "a", "b", "cpu", "к
 var cfgVals = []string{"linux", "amd64", "golang.org/x/perf", "v", "12", "Intel(R) Core(TM) i7 @ 2.80GHz", "a b  c", "x ", "é日本", "k: v", "Benchmark", "Unit", "\xff\xfe", "v\t1", "-", "*", "\"q\"", "a\\b"}
 var Units = []string{"ns/op", "MB/s", "B/op", "allocs/op", "sec/op", "B/s", "ns", "MB", "widgets", "x-bytes", "ns/MB", "µs", "%", "ns-MB", "nsec/op", "GC-ns/op", "u"}
 var nameBases = []string{"X", "Encode", "Decode/size=4k", "Foo/bar", "A/k=v/size=1", "", "é", "X/a=/b", "_", "9", "Sort/n=10/kind=rand"}
-var floats = []string{"1", "0", "2.5", "100", "1e3", "1.5e-7", "12345678", "0.000001", "-3", "+4", "NaN", "Inf", "-Inf", "+Inf", "1e400x", "0x1p-2", "1_0", ".5", "5.", "9223372036854775808", "1e-320"}
+var floats = []string{"1", "0", "2.5", "100", "1e3", "1.5e-7", "12345678", "0.000001", "-3", "+4", "NaN", "Inf", "-Inf", "+Inf",
+	"0x1p-2", ".5", "5.", "9223372036854775808", "9223372036854775809", "92233720368547758089", "18446744073709551616", "922337203685477580", "1e-320", "007", "-0"}
 var seps = []string{" ", " ", " ", "\t", "  ", " \t ", "\u00a0", "\u2003", "\u0085", "\v", "\f"}
 
 func pick(t *rapid.T, xs []string, label string) string { return rapid.SampledFrom(xs).Draw(t, label) }
@@ -98,7 +99,7 @@ func BenchLine(t *rapid.T) string {
 		nm = rapid.IntRange(30, 80).Draw(t, "nmeasbig")
 	}
 	for i := 0; i < nm; i++ {
-		sb.WriteString(sep(t) + pick(t, floats[:14], "fval") + sep(t) + pick(t, Units, "unit"))
+		sb.WriteString(sep(t) + pick(t, floats, "fval") + sep(t) + pick(t, Units, "unit"))
 	}
 	if rapid.IntRange(0, 9).Draw(t, "trailws") == 0 {
 		sb.WriteString(pick(t, []string{" ", "\t", " \u00a0"}, "tw"))
